@@ -103,6 +103,26 @@ PLAN = {
         "quick": [ph("input", 8, 300)],
         "thorough": [ph("input", 16, 15000)],
     },
+    "C16": {
+        "level": "exploration",
+        "level_text": "Differential monitor over generated metrics and batches: the real Compact and Binary encoders (writing into a memory buffer through one reused protocol object), the real decoder and the size-calculating transport (through one reused protocol object, as the reporter uses it) are run side by side; decode(encode(x)) = x, len(encode(x)) = calc(x), calc(x with maximal values) >= len(encode(x))",
+        "level_note": "compares the library's encoder, decoder and calculator with each other (no independent thrift implementation); sequences share protocol objects across a whole batch of cases so that carried-over state would show",
+        "technique": "runtime differential monitor (encoder vs decoder vs size calculator) over generated structures",
+        "rule": "case = 1..6 single metrics + one batch of 0..500 metrics (0..16 tags incl. nil/empty and the 14/15 short-list boundary, byte strings <= 1 KiB around the 127/128 varint boundary, int64/float64 extremes incl. NaN payloads, valid and invalid metric types) under Compact or Binary; distinct_nontrivial = distinct encodings (hash of the bytes)",
+        "assumptions": ["vendored thrift decoder used as the inverse of the encoder"],
+        "quick": [ph("input", 8, 500)],
+        "thorough": [ph("input", 16, 30000)],
+    },
+    "C17": {
+        "level": "exploration",
+        "level_text": "Reference-model monitor: generated record histories through a tally scope backed by the real Prometheus reporter and a fresh registry are compared, after report passes, with a reference tally of Gather() output (counter sums, last gauge values, timer sample counts for both flavours, cumulative bucket counts and totals, series separation by label values); every ordered pair of kinds reusing one name (and the same kind with different tag keys) is driven with panicking and silent error callbacks, directly and through a scope, and any panic other than the callback's own is a violation",
+        "level_note": "trusts the reference tally and the Prometheus client library's own Gather; negative counter deltas are outside the claim (documented Prometheus panic)",
+        "technique": "runtime reference-model monitor over generated histories + conflict-sequence enumeration by PRNG",
+        "rule": "case = one value history (5..50 ops over 4 scopes, 2 names per kind, strictly increasing value/duration specs with samples on and around every bound, passes interleaved) + one conflict scenario (7x7 kind pairs x same/different tag keys x panicking/silent callback x direct/through scope); distinct_nontrivial = distinct history hashes + distinct conflict scenarios",
+        "assumptions": ["reference tally in cmd/vh/c17.go", "prometheus client_golang Gather()"],
+        "quick": [ph("input", 8, 300)],
+        "thorough": [ph("input", 16, 15000)],
+    },
 }
 
 NOT_APPLICABLE = {}
